@@ -926,6 +926,21 @@ impl Thread {
         self.collect_with_context(&mut context);
     }
 
+    /// Visits everything reachable from this thread's roots (stack, rooted values, child threads)
+    /// without collecting anything; the visitor reports to `crate::verif`
+    #[cfg(gluon_verif)]
+    pub fn verif_walk(&self) {
+        let mut context = self.owned_context();
+        self.with_roots(&mut context, |gc, roots| {
+            crate::verif::set_walk(true);
+            {
+                let _verif_guard = crate::verif::enter_roots(gc.verif_id);
+                roots.trace(gc);
+            }
+            crate::verif::set_walk(false);
+        })
+    }
+
     fn collect_with_context(&self, context: &mut OwnedContext) {
         debug_assert!(ptr::eq::<Thread>(self, context.thread));
         self.with_roots(context, |gc, roots| unsafe {
